@@ -39,6 +39,13 @@ TRUSTED = [
     "change the flag (no setattr/__dict__ tricks); the flag starts False (HAPServerHandler.__init__)",
     "harness/ref/httpc.py reference controller (pair-verify, TLV, h11 client parsing), harness/ref/tlv8.py, generators",
     "h11 (request parsing / response framing) and asyncio are exercised, not modelled, in this property",
+    "the oracle's notion of 'verified' is observable: an M4 without error was SENT on the connection; the handler flag is only "
+    "a diagnostic. The model takes the flag from the pair-verify body's result, i.e. assumes flag and completed verify are "
+    "atomic with respect to exceptions: tied by the extracted statement order (C03_setter_atomic_table) and by the "
+    "fault-injection stream (side effects inside the M3 handler raising, then a plaintext sweep)",
+    "cross-connection frame (C03_frame / C03_pool_history): that nothing but a connection's own pair-verify raises its flag is "
+    "tied by the extracted writer table (C03_only_setter_table) and by the cross-connection stream (admin pairings operations "
+    "on another connection, then the sweep)",
     "C03_noninterference is per request (dispatch): unsolicited writes to an unverified connection (EVENT messages, a delayed "
     "snapshot shared with another session) are judged by this harness's busy-accessory oracle on the real code, and are the "
     "subject of C12/C13's theorems (events only to verified+subscribed connections; nothing held for a lost connection)",
@@ -803,6 +810,199 @@ def run_busy_cases(ctx: Ctx, deep: bool):
             ctx.fail(sig, f"{what}: " + "; ".join(d for _, d in problems), best)
 
 
+# --------------------------------------------------------------------------- cross-connection histories
+
+ADMIN_OPS = ["remove-user", "remove-unknown", "remove-admin-self", "add", "list"]
+
+
+def _admin_op(world: World, admin: Conn, op: str):
+    body = {
+        "remove-user": httpc.pairings_remove(CANARY_USER_ID),
+        "remove-unknown": httpc.pairings_remove(b"0BADF00D-0000-4000-8000-000000000000"),
+        "remove-admin-self": httpc.pairings_remove(CANARY_CTRL_ID),
+        "add": httpc.pairings_add(b"ADDED000-0000-4000-8000-000000000001", bytes(range(100, 132)), False),
+        "list": httpc.pairings_list(),
+    }[op]
+    return admin.request(b"POST", b"/pairings", body)
+
+
+def run_cross(spec: Dict[str, Any]) -> Dict[str, Any]:
+    """An unverified connection and a verified admin on one driver / registry: the unverified one is
+    opened and brought into its state FIRST, then the admin administers pairings, then the
+    unverified connection sends its request(s). Returns, per request, what conn.send saw and the
+    digest changes in its window."""
+    world = World(True, spec["shape"])
+    try:
+        u, trace = reach(world, spec["state"], conn=Conn(world, FRESH_PEER))
+        admin = _verified_conn(world, ADMIN_PEER)
+        ops = []
+        for op in spec["admin_ops"]:
+            r = _admin_op(world, admin, op)
+            ops.append((op, [x.status for x in r["responses"]]))
+        out = []
+        method = bytes.fromhex(spec["method"])
+        for tgt, body in spec["requests"]:
+            if u.t.closed:
+                break
+            before = world.digest()
+            res = u.send(httpc.http_request(method, bytes.fromhex(tgt), bytes.fromhex(body)), method)
+            after = world.digest()
+            out.append((res, before, after))
+        return {"results": out, "trace": trace, "admin": ops, "flag": bool(u.p.handler.is_encrypted), "world": world}
+    finally:
+        world.close()
+
+
+def _judge_single(world_like, what: str, res, before, after) -> List[Tuple[str, str]]:
+    """The C03 oracle for one request of a connection that never completed pair-verify."""
+    problems: List[Tuple[str, str]] = []
+    if res.get("hung"):
+        problems.append(("C03:request-not-answered", "the call into the server did not return"))
+    served = [r for r in res["responses"] if 200 <= r.status < 300 and not httpc.is_pairing_auth_error(r.body)]
+    if served:
+        problems.append(("C03:unverified-request-served", f"answered {served[0].status} with {len(served[0].body)} body bytes (not a refusal)"))
+    for label, needle in world_like.canaries():
+        if needle in res["written"]:
+            problems.append(("C03:canary-in-response", f"the response contains the {label}"))
+            break
+    if before != after:
+        problems.append(("C03:state-changed", f"{', '.join(k for k in before if before[k] != after[k])} changed"))
+    return problems
+
+
+def _route_requests(world: World, rng, n_junk: int = 1) -> List[Tuple[str, str, List[List[str]]]]:
+    out = []
+    for m, p, _h in route_table(world):
+        if p in EXEMPT:
+            continue
+        reqs = [[hx(t), hx(b)] for t, b in valid_bodies(world, m, p)] + [[hx(p.encode()), hx(b)] for b in junk_bodies(rng, n_junk)]
+        out.append((m, p, reqs))
+    return out
+
+
+def run_cross_cases(ctx: Ctx, deep: bool):
+    st = ctx.stats
+    probe = World(True, "sync")
+    try:
+        routes = _route_requests(probe, ctx.rng)
+    finally:
+        probe.close()
+    states = states_for(True) if deep else ["fresh", "verify-m1", "verify-m3-badsig"]
+    op_lists = [[op] for op in ADMIN_OPS] + ([["list", "add", "remove-user"], ["remove-unknown", "remove-unknown"]] if deep else [])
+    shapes = ["sync", "async", "bridge"] if deep else ["sync"]
+    for shape in shapes:
+        for state in states:
+            for ops in op_lists:
+                for m, p, reqs in routes:
+                    if hung_budget_exhausted():
+                        return
+                    spec = {"kind": "cross", "shape": shape, "state": state, "admin_ops": ops, "method": hx(m.encode()),
+                            "requests": reqs, "route": f"{m} {p}"}
+                    r = run_cross(spec)
+                    st.hit("op", "cross:" + "+".join(ops))
+                    for (res, before, after), rq in zip(r["results"], reqs):
+                        probs = _judge_single(r["world"], "", res, before, after)
+                        st.case(["cross", shape, state, ops, m, rq], True)
+                        st.hit("outcome", "cross:PROBLEM" if probs else "cross:refused")
+                        if probs and not any(f.signature == probs[0][0] for f in ctx.failures):
+                            one = dict(spec, requests=[rq])
+                            ctx.fail(probs[0][0],
+                                     f"{m} {p} in state {state} after a verified admin on another connection did pairings "
+                                     f"{'+'.join(ops)} ({shape}): " + "; ".join(d for _, d in probs), one)
+
+
+# --------------------------------------------------------------------------- faults inside the pair-verify M3 handler
+
+FAULTS = ["none", "async_persist-raises", "run_in_executor-raises", "state-write-raises"]
+
+
+def run_fault(spec: Dict[str, Any]) -> Dict[str, Any]:
+    """A real pair-verify (reference controller, right key) during which a side effect inside the
+    M3 handler raises. 'Verified' is judged by what was SENT: an M4 without error. If none was sent,
+    pair-verify did not complete and the connection is swept in plaintext as an unverified one."""
+    import uuid as _uuid
+
+    world = World(True, spec["shape"])
+    try:
+        d = world.driver
+        if spec["legacy"]:
+            d.state.uuid_to_bytes.pop(_uuid.UUID(CANARY_CTRL_ID.decode()), None)  # state saved by an old version
+
+        def boom(*a, **k):
+            raise RuntimeError("cannot schedule new futures after shutdown")
+
+        f = spec["fault"]
+        if f == "async_persist-raises":
+            d.async_persist = boom
+        elif f == "run_in_executor-raises":
+            del d.async_persist  # the real method: loop.run_in_executor(None, self.persist)
+            world.loop.run_in_executor = boom
+        elif f == "state-write-raises":
+            class Refusing(dict):
+                def __setitem__(self, k, v):
+                    raise RuntimeError("state is read-only")
+
+            d.state.uuid_to_bytes = Refusing(d.state.uuid_to_bytes)
+        c = Conn(world, FRESH_PEER)
+        vc = httpc.VerifyClient(CANARY_CTRL_ID, world.admin_key)
+        r1 = c.request(b"POST", b"/pair-verify", vc.m1())
+        m4_sent = False
+        m3_status = None
+        if r1["responses"]:
+            vc.read_m2(r1["responses"][0].body)
+            r3 = c.request(b"POST", b"/pair-verify", vc.m3())
+            if r3["responses"]:
+                m3_status = r3["responses"][0].status
+                tl = httpc.tlv8.merge_dict(httpc.tlv8.decode_list(r3["responses"][0].body)) if m3_status == 200 else {}
+                m4_sent = m3_status == 200 and tl.get(httpc.T_STATE) == b"\x04" and httpc.T_ERROR not in tl
+        out = []
+        if not m4_sent:
+            method = bytes.fromhex(spec["method"])
+            for tgt, body in spec["requests"]:
+                if c.t.closed:
+                    break
+                before = world.digest()
+                res = c.send(httpc.http_request(method, bytes.fromhex(tgt), bytes.fromhex(body)), method)
+                after = world.digest()
+                out.append((res, before, after))
+        return {"results": out, "m4_sent": m4_sent, "m3_status": m3_status, "flag": bool(c.p.handler.is_encrypted),
+                "crypto": c.p.hap_crypto is not None, "world": world}
+    finally:
+        world.close()
+
+
+def run_fault_cases(ctx: Ctx, deep: bool):
+    st = ctx.stats
+    probe = World(True, "sync")
+    try:
+        routes = _route_requests(probe, ctx.rng)
+    finally:
+        probe.close()
+    for shape in (["sync", "bridge"] if deep else ["sync"]):
+        for legacy in (True, False):
+            for fault in FAULTS:
+                for m, p, reqs in routes:
+                    if hung_budget_exhausted():
+                        return
+                    spec = {"kind": "fault", "shape": shape, "legacy": legacy, "fault": fault, "method": hx(m.encode()),
+                            "requests": reqs, "route": f"{m} {p}"}
+                    r = run_fault(spec)
+                    st.hit("op", f"fault:{fault}:{'legacy' if legacy else 'current'}-state")
+                    st.hit("outcome", "fault:verify-" + ("completed (M4 sent)" if r["m4_sent"] else f"not-completed (M3 answered {r['m3_status']})"))
+                    for (res, before, after), rq in zip(r["results"], reqs):
+                        probs = _judge_single(r["world"], "", res, before, after)
+                        st.case(["fault", shape, legacy, fault, m, rq], True)
+                        st.hit("outcome", "fault:PROBLEM" if probs else "fault:refused")
+                        if probs and not any(f_.signature == probs[0][0] for f_ in ctx.failures):
+                            one = dict(spec, requests=[rq])
+                            ctx.fail(probs[0][0],
+                                     f"{m} {p} in plaintext after a pair-verify that did NOT complete (M3 answered {r['m3_status']}, no M4, "
+                                     f"no session key; fault: {fault}, {'legacy' if legacy else 'current'} state, {shape}): "
+                                     + "; ".join(d for _, d in probs), one)
+                    if r["m4_sent"]:
+                        break  # a completed verify: nothing to sweep, one control per (legacy, fault) is enough
+
+
 # --------------------------------------------------------------------------- run
 
 
@@ -895,6 +1095,16 @@ def extract(ctx: Ctx):
         msg = f"route without a recognised privilege guard: {r['method']} {r['path']} -> {r['handler']} ({r['note']})"
         log(f"[C03] {msg}")
         ctx.stats.notes.append(msg)
+    for site, val in data["writers"]:
+        if val != "False" and not site.endswith("HAPServerHandler._pair_verify_two"):
+            msg = f"the privilege flag has another writer: {site} assigns `{val}`"
+            log(f"[C03] {msg}")
+            ctx.stats.notes.append(msg)
+    for site, ok, why in data.get("order", []):
+        if not ok:
+            msg = f"{site}: {why} (privileged without a completed pair-verify if that raises)"
+            log(f"[C03] {msg}")
+            ctx.stats.notes.append(msg)
     ctx._extracted = data  # type: ignore[attr-defined]
 
 
@@ -932,6 +1142,8 @@ def run(ctx: Ctx, model: bool = True, deep: Optional[bool] = None):
         finally:
             world.close()
     run_busy_cases(ctx, deep)
+    run_cross_cases(ctx, deep)
+    run_fault_cases(ctx, deep)
     if not model:
         return
     answers = run_model_parallel("C03", lines)
@@ -971,6 +1183,24 @@ def search(ctx: Ctx):
 
 
 def replay(ctx: Ctx, r):
+    if r.get("kind") in ("cross", "fault"):
+        o = run_cross(r) if r["kind"] == "cross" else run_fault(r)
+        if r["kind"] == "cross":
+            print("scenario: unverified connection in state", r["state"], "; then a verified admin on another connection:", o["admin"])
+        else:
+            print(f"scenario: pair-verify with fault {r['fault']} ({'legacy' if r['legacy'] else 'current'} state): M3 answered",
+                  o["m3_status"], "M4 sent:", o["m4_sent"], "session key installed:", o["crypto"])
+        print("handler flag (diagnostic):", o["flag"])
+        for (res, before, after), rq in zip(o["results"], r["requests"]):
+            print("request:", bytes.fromhex(r["method"]), bytes.fromhex(rq[0]), bytes.fromhex(rq[1])[:80])
+            print("response:", res["responses"], "closed:", res["closed"], "digest changed:", [k for k in before if before[k] != after[k]])
+            probs = _judge_single(o["world"], "", res, before, after)
+            if probs:
+                ctx.fail(probs[0][0], "; ".join(d for _, d in probs), r)
+        for f in ctx.failures:
+            print("FAILS:", f.signature, f.description)
+        print("verdict:", "property violated on this input" if ctx.failures else "holds on this input")
+        return 1 if ctx.failures else 0
     if r.get("kind") in ("busy", "reuse"):
         res = run_busy(r)
         probs = busy_problems(r, res)
